@@ -1,7 +1,7 @@
 """Adaptive branches of C05 (addition on the common grid) and C12 (independence under bin growth)."""
 from lib.a_adaptive import AdaptiveAdapter, GridEmb
 
-VIEW = {"accepted", "bins", "freq", "err2", "missed", "total", "live", "adaptive", "stats"}
+VIEW = {"accepted", "bins", "freq", "err2", "missed", "total", "live", "adaptive", "stats", "dtype_consistent"}
 GRIDS = [[GridEmb(1.0), GridEmb(0.5)], [GridEmb(0.1), GridEmb(2.5, 0.5)]]
 
 
@@ -21,6 +21,11 @@ def add_part(ctx, tier):
 def stats_part(ctx, tier):
     """C14: statistics accumulate over adaptive addition too."""
     _run(ctx, tier, "adaptive-stats", "MC_Adaptive_c05", ("NewEmpty", "NewFilled", "Add", "IAdd", "Copy", "Fill", "FillN"))
+
+
+def dtype_part(ctx, tier):
+    """C13: sums of integer and float adaptive histograms report the dtype their arrays have."""
+    _run(ctx, tier, "adaptive-dtype", "MC_Adaptive_c05", ("NewEmpty", "NewFilled", "Add", "IAdd", "Copy", "Fill", "FillN"))
 
 
 def independence_part(ctx, tier):
